@@ -258,7 +258,7 @@ class Runner:
             r = self.run_cbmc(ob, extra_defines, unwindset_override=extra_us)
             r['unwind_refined'] = dict(extra_us)
         ob.unwind_refined = dict(extra_us)
-        if r['status'] in ('timeout', 'oom'):
+        if r['status'] in ('timeout', 'oom') and not getattr(ob, 'hunt', False):
             alt = 'cadical' if ob.backend != 'cadical' else 'minisat'
             r2 = self.run_cbmc(ob, extra_defines, backend=alt)
             r2['retried_from'] = ob.backend + ':' + r['status']
@@ -453,7 +453,7 @@ class Runner:
                 open(os.path.join(pdir, 'STATUS'), 'w').write('reproduced\n' + err[-3000:])
                 violations.append({'obligation': 'probe/' + pname, 'violated': ['%s (compiler verdict) [probe]' % what], 'replay': pdir, 'replay_status': 'reproduced', 'replay_output': err[-600:]})
         # ---- evaluate
-        nq = 0; solver_s = 0.0; samples = []; nontrivial = 0
+        nq = 0; solver_s = 0.0; samples = []; nontrivial = 0; undecided = []
         for name, (ob, kfd, r) in sorted(list(results.items())):
             nq += 1 + (1 if 'retried_from' in r else 0); solver_s += r['time_s']
             if r['status'] == 'pass':
@@ -471,6 +471,9 @@ class Runner:
                 else:
                     violations.append({'obligation': name, 'violated': ['%s [%s]' % (d, p) for p, d in h['failed']][:6], 'replay': h['rdir'], 'replay_status': h['status'],
                                        'replay_output': h['out'][-600:]})
+            elif getattr(ob, 'hunt', False) and r['status'] in ('timeout', 'oom'):
+                # bug-hunting obligation: a counterexample inside the budget is a violation, no verdict inside the budget is recorded as UNDECIDED (never as held)
+                undecided.append(name)
             else:
                 inconclusive.append('obligation %s: %s %s' % (name, r['status'], '; '.join(r['errors'])[:600]))
             if len(samples) < 12 or r['status'] != 'pass':
@@ -519,7 +522,7 @@ class Runner:
             'bounds': getattr(self.prop, 'BOUNDS', {}).get(self.tier, getattr(self.prop, 'BOUNDS', '')),
             'not_covered': getattr(self.prop, 'NOT_COVERED', []),
             'translation_validation': tvres, 'compile_time_probes': probes_run,
-            'known_findings_confirmed': known, 'violations_detail': violations, 'inconclusive': inconclusive[:10],
+            'undecided_bug_hunting_obligations': undecided, 'known_findings_confirmed': known, 'violations_detail': violations, 'inconclusive': inconclusive[:10],
             'cbmc_flags': CBMC_BASE,
         }
         ev['assumptions'] = list(getattr(self.prop, 'ASSUMPTIONS', [])) + [
